@@ -1064,7 +1064,7 @@ def run_world(cfg):  # noqa: PLR0915, C901, PLR0912
                 framing = {'coding': 'none', 'coding_header': rng.choice(['br', 'deflate', 'zstd'])}
             elif op == 'ce_corrupt':
                 z = bytearray(_gzip.compress(data))
-                z[rng.randrange(len(z))] ^= 0x10
+                z[rng.randrange(10, len(z))] ^= 0x10        # behind the 10-byte gzip header (mtime/xfl/os are not checked by anyone)
                 framing = {'coding': 'none', 'coding_header': 'gzip', 'payload_override': bytes(z[:rng.choice([len(z), len(z) // 2])])}
             elif op == 'ce_plain_as_gzip':
                 framing = {'coding': 'none', 'coding_header': rng.choice(['gzip', 'lz4', 'x-lz4'])}
